@@ -388,7 +388,7 @@ class SchedLock(object):
         import sys
         f = sys._getframe(2)
         # skip frames of the engine's call hook
-        while f is not None and f.f_code.co_filename.endswith(('sx/hooks.py', 'harness/kit.py')):
+        while f is not None and f.f_code.co_filename.endswith(('sx/hooks.py', 'harness/kit.py', 'threading.py')):
             f = f.f_back
         return f.f_code.co_name if f is not None else '?'
 
